@@ -191,6 +191,8 @@ def build(unit_name, outdir, global_rw=()):
             cur.d['noisvariant'] = True
         elif key in ('rw', 'rw?'):
             cur.d['rw'].append(parse_rw(arg) + (key == 'rw',))
+        elif key == 'builtin' and arg == 'map_or_else':
+            cur.d['rw'].append(('@map_or_else', None, False))
         elif key == 'builtin':
             if arg not in BUILTINS:
                 raise UnitError('%s: unknown builtin rewrite %s' % (tpath, arg))
@@ -236,9 +238,100 @@ def expand_includes(lines, base):
     return res
 
 
+def desugar_map_or_else(text):
+    """X.map_or_else(|| A, |p| B)  ->  (match X { None => A, Some(p) => B })   — the definition of
+    Option::map_or_else; needed because Verus rejects closures that capture `&mut self`."""
+    from rsrc import find_closures, match_close
+    n = 0
+    while True:
+        m = mask(text)
+        k = m.find('.map_or_else(')
+        if k < 0:
+            return text, n
+        # receiver: maximal postfix chain ending at k
+        i, depth = k - 1, 0
+        while i >= 0:
+            ch = m[i]
+            if ch in ')]':
+                depth += 1
+            elif ch in '([':
+                if depth == 0:
+                    break
+                depth -= 1
+            elif depth == 0 and not (ch.isalnum() or ch in '_.:&?\n \t' and (ch not in ' \n\t' or m[i + 1:i + 2] in ('.', ' ', '\n', '\t') or True)):
+                break
+            elif depth == 0 and ch in ' \n\t':
+                # whitespace is part of the chain only when followed (after more whitespace) by a '.'
+                j = i
+                while j < k and m[j] in ' \n\t':
+                    j += 1
+                if m[j] != '.':
+                    break
+            i -= 1
+        recv = text[i + 1:k].strip()
+        op = k + len('.map_or_else')
+        cl = match_close(m, op)
+        args = text[op + 1:cl]
+        cls = find_closures(mask(args))
+        if len(cls) != 2:
+            raise LostAnchor('map_or_else with %d closure arguments' % len(cls))
+        (s1, p1, b1, e1), (s2, p2, b2, e2) = cls
+        none_body = args[b1:e1].strip()
+        param = args[s2 + 1:p2].strip()
+        some_body = args[b2:e2].strip()
+        new = '(match %s { None => %s, Some(%s) => %s })' % (recv, none_body, param, some_body)
+        text = text[:i + 1] + new + text[cl + 1:]
+        n += 1
+
+
+def desugar_option_map(text):
+    """X.as_ref().map(|p| B)  ->  (match X.as_ref() { None => None, Some(p) => Some(B) })  — definition of Option::map;
+    applied only when the closure body mentions `self` (Verus rejects closures capturing `&mut self`)."""
+    from rsrc import find_closures, match_close
+    n = 0
+    start = 0
+    while True:
+        m = mask(text)
+        mm = re.search(r'\.as_ref\(\)\s*\.map\(', m[start:])
+        if not mm:
+            return text, n
+        k = start + mm.start()
+        op = start + mm.end() - 1
+        cl = match_close(m, op)
+        args = text[op + 1:cl]
+        cls = find_closures(mask(args))
+        if len(cls) != 1 or 'self' not in args:
+            start = op
+            continue
+        s1, p1, b1, e1 = cls[0]
+        # receiver chain before `.as_ref()`
+        i, depth = k - 1, 0
+        while i >= 0:
+            ch = m[i]
+            if ch in ')]':
+                depth += 1
+            elif ch in '([':
+                if depth == 0:
+                    break
+                depth -= 1
+            elif depth == 0 and not (ch.isalnum() or ch in '_.:&'):
+                break
+            i -= 1
+        recv = text[i + 1:k].strip() + '.as_ref()'
+        new = '(match %s { None => None, Some(%s) => Some(%s) })' % (recv, args[s1 + 1:p1].strip(), args[b1:e1].strip())
+        text = text[:i + 1] + new + text[cl + 1:]
+        n += 1
+        start = i + 1 + len(new)
+
+
 def apply_rw(text, rws, where):
     n_applied = 0
     for pat, repl, required in rws:
+        if pat == '@map_or_else':
+            text, n = desugar_map_or_else(text)
+            text, n2 = desugar_option_map(text)
+            n_applied += n + n2
+            continue
         new, n = re.subn(pat, repl, text)
         if n == 0 and required:
             raise LostAnchor('%s: rewrite /%s/ no longer matches (code outside the extractor\'s subset)' % (where, pat))
